@@ -227,9 +227,9 @@ void run_case(verif::Src& s, verif::Stats& st, const bool literal)
             for (auto& in : mtx.vin) { auto it = view.find(in.prevout); if (it != view.end()) spent[in.prevout] = it->second; }
             std::map<COutPoint, Coin> cmap;
             for (auto& [op, rc] : spent) cmap[op] = Coin(CTxOut(rc.value, rc.spk), rc.height > 0 ? rc.height : 1, rc.coinbase);
+            sim.keys.Sign(mtx, spent); // the external input first, then the wallet's own inputs
             std::map<int, bilingual_str> errs;
             ws.w->SignTransaction(mtx, cmap, SIGHASH_DEFAULT, errs);
-            sim.keys.Sign(mtx, spent);
         }
         const CTransaction tx(mtx);
         st.steps++;
